@@ -538,6 +538,7 @@ func runSeqCase(c *run.Ctx, cs *SeqCase, st *seqStats, shrink bool) bool {
 	}
 	w := &SeqCase{Mon: "seq", Kind: cs.Kind, U: cs.U, Ops: ops}
 	w.What = v.msg + " | sequence: " + fmtOps(ops) + " | universe: " + fmtUniverse(cs.U, ops)
+	c.Stat("violations "+v.class, 1)
 	c.Violation(v.class, w.What, w)
 	return false
 }
